@@ -122,9 +122,10 @@ package client
 //@   ensures [others]    err == nil ==> forall t int {nsent[t]} :: t != typecode(pkt) ==> nsent[t] == old(nsent[t])
 //@   ensures [others-id] err == nil ==> forall t int {lastid[t]} :: t != typecode(pkt) ==> lastid[t] == old(lastid[t])
 //@   ensures [dup]       nnodup == old(nnodup) + (err == nil && istype(pkt, *packet.Publish) && !as(pkt, *packet.Publish).Dup ? 1 : 0)
-//@   ensures [fail]      err != nil ==> nsent == old(nsent) && nsentall == old(nsentall) && lastid == old(lastid)
+//@   ensures [seq]       err == nil ==> sentseq[old(nsentall)] == as(pkt, *packet.Publish) && forall j int {sentseq[j]} :: j != old(nsentall) ==> sentseq[j] == old(sentseq[j])
+//@   ensures [fail]      err != nil ==> nsent == old(nsent) && nsentall == old(nsentall) && lastid == old(lastid) && sentseq == old(sentseq)
 //@   ensures [unlocked]  held == old(held)
-//@   modifies nsent, nsentall, lastid, connack_sp, connack_code, nnodup, npubq, c.tracker.last, held[c.tracker.mutex]
+//@   modifies nsent, nsentall, sentseq, lastid, connack_sp, connack_code, nnodup, npubq, c.tracker.last, held[c.tracker.mutex]
 //
 // die: runs cleanup and the error callback at most once (sync.Once); the
 // error it returns is never nil, so every handler path through die ends the
@@ -215,6 +216,7 @@ package client
 //@   ensures [inv] err == nil ==> client_inv(c) && (old(incoming_ok()) ==> incoming_ok()) && (old(outgoing_ok()) ==> outgoing_ok()) && (cbfail <==> old(cbfail)) && c.connectFuture == old(c.connectFuture)
 //@   modifies everything
 //@   loop 1 invariant [resent] 0 <= rangeindex + 1 && rangeindex + 1 <= len(packets) && nall == len(packets) && nsentall == old(nsentall) + rangeindex + 1 && nnodup == old(nnodup) && saved == old(saved) && client_inv(c) && held == old(held) && c.state == 3 && c.connectFuture.done && old(c.state) == 1
+//@   loop 1 invariant [order] forall k int {sentseq[k]} :: old(nsentall) <= k && k <= old(nsentall) + rangeindex ==> sentseq[k] == as(packets[k - old(nsentall)], *packet.Publish)
 //@   loop 1 invariant [stored] forall i int {packets[i]} :: 0 <= i && i < len(packets) ==> packets[i] != nil && typecode(packets[i]) != 0 && as(packets[i], *packet.Publish) != nil && saved[1][idOf(packets[i])] == typecode(packets[i]) && idOf(packets[i]) != 0
 //
 // cleanup: the client ends up disconnected and - unless the store is
